@@ -40,7 +40,7 @@ func NewConsumerApp() *ConsumerApp {
 // Boot does what a new consumer chain does at genesis: the app's own InitChainer with a genesis
 // document whose ccvconsumer section is the genesis the provider recorded at launch. It returns the
 // chain state inside block 1 and the validator set handed to the consensus engine.
-func (ca *ConsumerApp) Boot(chainID string, gen ccv.ConsumerGenesisState, genesisTime time.Time, mutate func(*consumertypes.GenesisState)) (State, []abci.ValidatorUpdate, error) {
+func (ca *ConsumerApp) Boot(chainID string, gen ccv.ConsumerGenesisState, genesisTime time.Time, mutate func(*consumertypes.GenesisState), genMutate ...func(map[string]json.RawMessage)) (State, []abci.ValidatorUpdate, error) {
 	app := ca.CApp
 	enc := appConsumer.MakeTestEncodingConfig()
 	cdc := enc.Codec
@@ -56,6 +56,9 @@ func (ca *ConsumerApp) Boot(chainID string, gen ccv.ConsumerGenesisState, genesi
 		mutate(&cg)
 	}
 	g[consumertypes.ModuleName] = cdc.MustMarshalJSON(&cg)
+	for _, f := range genMutate {
+		f(g)
+	}
 	stateBytes, err := json.Marshal(g)
 	if err != nil {
 		return State{}, nil, err
